@@ -1,44 +1,67 @@
 (* C19 — invalid configuration is refused cleanly; valid configuration is accepted.
-   Statements only; proofs are in ConfigValidProofs.v.  `start` is the model of core.Start with the recover handler as
-   it is in /repo now (after `fix:` commit 343ebf8); `start_old` carries the handler of the unchanged tree. *)
+   Statements only; proofs are in ConfigValidProofs.v.  `start o c a` is the model of core.Start (recover handler as it
+   is in /repo after `fix:` 343ebf8; reference checks as after the dotted-reference `fix:`) on configuration `c`, with
+   the Go maps iterated in order `o`, entered with the caller's ApplicationContext in state `a` (fresh, constructed with
+   ConfigurationValid already true, or re-used after earlier Start calls).  `start_old` carries the handler of the
+   unchanged tree. *)
 From Coq Require Import List ZArith Permutation.
 From Burrow Require Import ConfigValid ConfigValidProofs.
 Import ListNotations.
 Open Scope Z_scope.
 
-(* Refusal, both directions, for every configuration and every iteration order of the module maps:
+(* Refusal, both directions, for every configuration, every iteration order of the module maps and every initial state
+   of the application context:
    some documented requirement is violated  <->  Start returns 1, having started nothing (and so: no panic). *)
-Theorem C19_refuse_iff_invalid : forall (o : order) (c : config),
+Theorem C19_refuse_iff_invalid : forall (o : order) (c : config) (a : app_state),
   order_ok o c ->
-  (requirements c <> [] <-> start o c = Returned 1 nothing_started).
+  (requirements c <> [] <-> start o c a = Returned 1 nothing_started).
 Proof. exact refuse_iff_invalid. Qed.
 Print Assumptions C19_refuse_iff_invalid.
 
 (* No configuration at all makes a panic leave Start (not even with an inconsistent order argument). *)
-Theorem C19_start_never_panics : forall (o : order) (c : config) (p : panic), start o c <> Panicked p.
+Theorem C19_start_never_panics : forall (o : order) (c : config) (a : app_state) (p : panic), start o c a <> Panicked p.
 Proof. exact start_never_panics. Qed.
 Print Assumptions C19_start_never_panics.
 
-(* Acceptance: every requirement holds <-> ConfigurationValid is set ... *)
-Theorem C19_accept_iff_valid : forall (o : order) (c : config),
+(* Acceptance: every requirement holds <-> ConfigurationValid is set afterwards ... *)
+Theorem C19_accept_iff_valid : forall (o : order) (c : config) (a : app_state),
   order_ok o c ->
-  (requirements c = [] <-> config_valid o c = true).
+  (requirements c = [] <-> config_valid o c a = true).
 Proof. exact accept_iff_valid. Qed.
 Print Assumptions C19_accept_iff_valid.
 
 (* ... and then Start goes on to start subsystems: at least one Start is entered, only configured coordinators are, the
    result is 0 or 1 (1 = a subsystem failed at start time, e.g. unreachable brokers), and 0 means everything was started. *)
-Theorem C19_valid_is_started : forall (o : order) (c : config),
+Theorem C19_valid_is_started : forall (o : order) (c : config) (a : app_state),
   order_ok o c -> requirements c = [] ->
-  exists rc started, start o c = Returned rc started /\ (rc = 0 \/ rc = 1) /\ started <> [] /\
+  exists rc started, start o c a = Returned rc started /\ (rc = 0 \/ rc = 1) /\ started <> [] /\
                      (forall k, In k started -> In k (coordinators c)) /\ (rc = 0 -> started = coordinators c).
 Proof. exact valid_is_started. Qed.
 Print Assumptions C19_valid_is_started.
 
+(* The caller's context is irrelevant: the outcome of Start and the flag it leaves behind are the same from every
+   initial state — in particular from the state any history of earlier Start calls on the same context left behind. *)
+Theorem C19_context_independent : forall (o : order) (c : config) (a1 a2 : app_state),
+  start o c a1 = start o c a2 /\ config_valid o c a1 = config_valid o c a2.
+Proof. exact context_independent. Qed.
+Print Assumptions C19_context_independent.
+
+Theorem C19_reuse_independent : forall (hist : list (order * config)) (o : order) (c : config) (a : app_state),
+  start o c (app_after_history hist a) = start o c fresh_app /\
+  config_valid o c (app_after_history hist a) = config_valid o c fresh_app.
+Proof. exact reuse_independent. Qed.
+Print Assumptions C19_reuse_independent.
+
+(* A refused configuration never leaves ConfigurationValid set behind. *)
+Theorem C19_refused_flag_cleared : forall (o : order) (c : config) (a : app_state),
+  order_ok o c -> requirements c <> [] -> config_valid o c a = false.
+Proof. exact refused_flag_cleared. Qed.
+Print Assumptions C19_refused_flag_cleared.
+
 (* The verdict (indeed the whole outcome) does not depend on the order in which Go iterates over the module maps. *)
-Theorem C19_order_independent : forall (o1 o2 : order) (c : config),
+Theorem C19_order_independent : forall (o1 o2 : order) (c : config) (a : app_state),
   order_ok o1 c -> order_ok o2 c ->
-  start o1 c = start o2 c /\ config_valid o1 c = config_valid o2 c.
+  start o1 c a = start o2 c a /\ config_valid o1 c a = config_valid o2 c a.
 Proof. exact order_independent. Qed.
 Print Assumptions C19_order_independent.
 
@@ -61,28 +84,54 @@ Print Assumptions C19_driver_orders_ok.
 
 (* F10, the unchanged tree: with the old recover handler the refusal direction is false — for EVERY invalid
    configuration Start is left by a panic instead of returning 1 (witnesses replayed on the unfixed code). *)
-Theorem C19_old_handler_never_refuses : forall (o : order) (c : config),
-  order_ok o c -> requirements c <> [] -> exists p, start_old o c = Panicked p.
+Theorem C19_old_handler_never_refuses : forall (o : order) (c : config) (a : app_state),
+  order_ok o c -> requirements c <> [] -> exists p, start_old o c a = Panicked p.
 Proof. exact old_handler_never_refuses. Qed.
 Print Assumptions C19_old_handler_never_refuses.
 
 Theorem C19_old_handler_refuse_refuted :
-  exists o c, order_ok o c /\ requirements c <> [] /\ start_old o c <> Returned 1 nothing_started /\
-              exists p, start_old o c = Panicked p.
+  exists o c, order_ok o c /\ requirements c <> [] /\
+              forall a, start_old o c a <> Returned 1 nothing_started /\ exists p, start_old o c a = Panicked p.
 Proof. exact refuse_refuted. Qed.
 Print Assumptions C19_old_handler_refuse_refuted.
 
+(* Why the initial context is quantified over (documentation; `handler_noreset` is NOT the code): a recover handler that
+   logs and returns but forgets `app.ConfigurationValid = false` is indistinguishable from the real one on a fresh
+   context, and refuses nothing at all on a context whose flag is set. *)
+Theorem C19_noreset_handler_same_on_fresh : forall (o : order) (c : config),
+  start_with handler_noreset o c fresh_app = start o c fresh_app /\
+  config_valid_with handler_noreset o c fresh_app = config_valid o c fresh_app.
+Proof. exact noreset_handler_same_on_fresh. Qed.
+Print Assumptions C19_noreset_handler_same_on_fresh.
+
+Theorem C19_noreset_handler_never_refuses_used : forall (o : order) (c : config),
+  start_with handler_noreset o c used_app <> Returned 1 nothing_started /\
+  config_valid_with handler_noreset o c used_app = true.
+Proof. exact noreset_handler_never_refuses_used. Qed.
+Print Assumptions C19_noreset_handler_never_refuses_used.
+
 (* Satisfiability of the hypotheses: a concrete valid configuration (with notifier and zookeeper) is accepted and fully
-   started; a concrete invalid one is refused after zookeeper and storage were configured. *)
+   started and leaves the flag set; a concrete invalid one is refused — from a fresh context and from the context the
+   valid one left behind — after zookeeper and storage were configured, and clears the flag. *)
 Example C19_example_valid :
   requirements ex_valid = [] /\
-  start (canonical_order ex_valid) ex_valid
+  start (canonical_order ex_valid) ex_valid fresh_app
     = Returned 0 [CZookeeper; CStorage; CEvaluator; CHttpserver; CNotifier; CCluster; CConsumer] /\
-  config_valid (canonical_order ex_valid) ex_valid = true.
+  config_valid (canonical_order ex_valid) ex_valid fresh_app = true /\
+  app_after_history [(canonical_order ex_valid, ex_valid)] fresh_app = used_app.
 Proof. exact ex_valid_accepted. Qed.
 
 Example C19_example_invalid :
   requirements ex_bad_regex = [(StorageAllow, 1)] /\
-  start (canonical_order ex_bad_regex) ex_bad_regex = Returned 1 nothing_started /\
+  start (canonical_order ex_bad_regex) ex_bad_regex fresh_app = Returned 1 nothing_started /\
+  start (canonical_order ex_bad_regex) ex_bad_regex
+        (app_after_history [(canonical_order ex_valid, ex_valid)] fresh_app) = Returned 1 nothing_started /\
+  config_valid (canonical_order ex_bad_regex) ex_bad_regex used_app = false /\
   configured (canonical_order ex_bad_regex) ex_bad_regex = [CZookeeper; CStorage].
 Proof. exact ex_bad_regex_refused. Qed.
+
+Example C19_example_noreset :
+  requirements ex_bad_regex <> [] /\
+  start_with handler_noreset (canonical_order ex_bad_regex) ex_bad_regex used_app
+    = Returned 0 [CZookeeper; CStorage; CEvaluator; CHttpserver; CNotifier; CCluster; CConsumer].
+Proof. exact noreset_handler_accepts_invalid. Qed.
